@@ -173,10 +173,10 @@ func ruleBuildCandidates(p *Prog, r *Report) {
 		undecided("R-STEPS: buildCandidates no longer sets built = true")
 	}
 	for _, pass := range []struct{ fn, field string }{{"selectByFamilyWithSubs", "withFallback"}, {"filterUserProvided", "manual"}, {"retainsBestMatches", ""}} {
-		callee := p.Func("fontscan", "fontSet", pass.fn)
+		callee := withDelegates(p, p.Func("fontscan", "fontSet", pass.fn)) // or the function it merely forwards to
 		k := key + "/" + pass.fn
 		r.Instance(rule, k)
-		ok, path := mustPrecede(p, f, done, func(in ssa.Instruction) bool { return staticCallTo(in, callee) }, nil)
+		ok, path := mustPrecede(p, f, done, func(in ssa.Instruction) bool { return staticCallToAny(in, callee) }, nil)
 		r.Check(ok, rule, k, p.IPos(done), fmt.Sprintf("every path that marks the candidates as built has run %s", pass.fn), path...)
 	}
 	// the exact-family pass: the loop over query.Families calls selectByFamilyExact
@@ -191,7 +191,8 @@ func ruleBuildCandidates(p *Prog, r *Report) {
 // return a hit only on the equal edge of those comparisons.
 func ruleKeyHash(p *Prog, r *Report, pkg, recv, keyFn, getFn string) {
 	const rule = "R-KEY/hash"
-	kf := p.Func(pkg, recv, keyFn)
+	kfs := withDelegates(p, p.Func(pkg, recv, keyFn))
+	kf := kfs[len(kfs)-1] // the function that builds the key, when keyFn only forwards to it
 	get := p.Func(pkg, recv, getFn)
 	key := p.FnName(get)
 	r.Instance(rule, key)
